@@ -8,6 +8,7 @@ from .algos import (ALGOS, COV, AlgoState, depth, install_predicate_contracts, s
                     transition, Specs)
 
 q = z3.Int("q!w")
+xc = z3.Int("x!c")  # quantified variable of the consumer clauses (must differ from the bound variables inside Specs)
 
 
 def _promo(name, method, witness_sets, slack_of, gated=False):
@@ -31,7 +32,12 @@ def _promo(name, method, witness_sets, slack_of, gated=False):
         transition(t, A, paths, method, "exactly_the_uncoverable_candidates_move_to_P",
                    S=lambda e: z3.And(z3.Select(A.S0, e), z3.Not(z3.And(open_, new(e)))),
                    P=lambda e: z3.Or(z3.Select(A.P0, e), z3.And(open_, new(e))),
-                   enable=open_ if gated else None)
+                   enable=open_ if gated else None,
+                   consumers=[("safe/a_design_enters_P_only_when_no_active_region_can_cover_it",
+                               lambda S1, P1, U1, res: z3.ForAll([xc], z3.Implies(z3.And(z3.Select(P1, xc), z3.Not(z3.Select(A.P0, xc))), new(xc)))),
+                              ("safe/every_candidate_stays_in_S_or_moves_to_P",
+                               lambda S1, P1, U1, res: z3.ForAll([xc], z3.Implies(z3.Select(A.S0, xc), z3.Or(z3.Select(S1, xc), z3.Select(P1, xc))))),
+                              ("safe/U_untouched", lambda S1, P1, U1, res: same_set(U1, A.U0))])
 
         def mono(p):
             S1, P1, U1, o = A.final(p)
@@ -60,7 +66,10 @@ def _useful(name):
         t.no_raise(paths)
         useful = Specs(A).useful(A.S0, A.P0, A.REG0, A.alpha_eps)
 
-        transition(t, A, paths, "useful_updating", "U_is_exactly_members_of_P_that_can_still_cover_a_candidate", U=useful)
+        transition(t, A, paths, "useful_updating", "U_is_exactly_members_of_P_that_can_still_cover_a_candidate", U=useful,
+                   consumers=[("safe/U_keeps_every_member_of_P_that_can_still_cover_a_candidate",
+                               lambda S1, P1, U1, res: z3.ForAll([xc], z3.Implies(useful(xc), z3.Select(U1, xc)))),
+                              ("safe/S_and_P_untouched", lambda S1, P1, U1, res: z3.And(same_set(S1, A.S0), same_set(P1, A.P0)))])
         t.implicit()
     return _t
 
